@@ -74,7 +74,10 @@ def full_model(ds) -> dict:
         }
     if type(ds).__name__ != "MazeDataset":
         return {"class": type(ds).__name__}  # e.g. a plain dict when no loader recognised the stored format: compare() reports it
-    m = _ds.ds_model(ds)
+    try:
+        m = _ds.ds_model(ds)
+    except Exception as e:  # noqa: BLE001 - e.g. the "mazes" of a loaded dataset are not mazes at all
+        return {"class": "MazeDataset", "malformed": f"{type(e).__name__}: {str(e)[:160]}", "n": len(getattr(ds, "mazes", []) or [])}
     m["meta"] = canon_meta(ds.generation_metadata_collected)
     m["ends"] = [[[int(x) for x in np.asarray(z.start_pos)], [int(x) for x in np.asarray(z.end_pos)]] for z in ds.mazes]
     m["per_maze_meta"] = [z.generation_meta is not None for z in ds.mazes]
@@ -85,6 +88,8 @@ def compare(loaded: dict, after: dict, before: dict, what: str):
     "loaded vs the source's model after the call; source before vs after"
     if loaded["class"] != after["class"]:
         raise core.Violation("C05.class", f"{what}: loaded a {loaded['class']}, source is a {after['class']}")
+    if "malformed" in loaded:
+        raise core.Violation("C05.length", f"{what}: the loaded dataset holds {loaded.get('n')} items that are not mazes ({loaded['malformed']})")
     if loaded["class"] == "MazeDatasetCollection":
         if len(loaded["members"]) != len(after["members"]):
             raise core.Violation("C05.collection-members", f"{what}: {len(loaded['members'])} members loaded, {len(after['members'])} saved")
@@ -351,6 +356,11 @@ def gen_history(rng: random.Random, tier: str) -> dict:
     long_paths = rng.random() < 0.12
     far_corner = (not long_paths) and rng.random() < 0.08
     long_lists = (not long_paths) and (not far_corner) and rng.random() < 0.07
+    many_mazes = (not long_paths) and (not far_corner) and (not long_lists) and rng.random() < 0.05
+    if many_mazes:
+        # enough mazes for the archive writer to store the maze LIST itself as an external member (>= 256 items), in the
+        # full format (threshold off or above the size)
+        ops[:] = [["threshold", rng.choice([None, 1000])]]
     for i in range(n_ops):
         r = rng.random()
         if not slots or r < 0.2:
@@ -359,6 +369,8 @@ def gen_history(rng: random.Random, tier: str) -> dict:
                 # (the minimal formats store coordinates as int8 and lengths separately)
                 g = rng.choice([18, 20])
                 cfg = {"name": "long", "grid_n": g, "n_mazes": rng.randint(1, 3), "maze_ctor": "gen_dfs", "maze_ctor_kwargs": {}, "endpoint_kwargs": {"allowed_start": [[0, 0]], "allowed_end": [[g - 1, g - 1]]}, "seed": rng.randrange(1000), "applied_filters": []}
+            elif many_mazes:
+                cfg = {"name": "many", "grid_n": rng.choice([2, 3]), "n_mazes": rng.choice([255, 256, 257, 300]), "maze_ctor": rng.choice(["gen_dfs", "gen_wilson"]), "maze_ctor_kwargs": {}, "endpoint_kwargs": {}, "seed": rng.randrange(1000), "applied_filters": []}
             elif long_lists:
                 # endpoint coordinate lists long enough for the archive writer to store them as external members
                 # (ZANJ externalises lists of >= 256 entries): the configuration must come back from the file intact
